@@ -102,7 +102,7 @@ def generate(rng, tier):
         for ch in chains:
             cases_for(rng, sp, ch, cases, "fixed")
     for _ in range(150 if thorough else 25):
-        sp = E.random_spec(rng)
+        sp = E.random_spec(rng, multi=(rng.random() < 0.5))
         for ch in walks(rng, sp, 12 if thorough else 6, 6):
             cases_for(rng, sp, ch, cases, "rand")
     return cases
